@@ -1,6 +1,6 @@
 (* C06 -- the set-algebra models instantiated at the observed label type [val], and the Boolean
    checks the correspondence cases evaluate.  No proofs. *)
-Require Import SF.Prelude SF.Dtype SF.Value SF.PyDyn Gen.Gen_util SF.SetAlg.
+Require Import SF.Prelude SF.Dtype SF.Value SF.PyDyn Gen.Gen_util Gen.Gen_c06 SF.SetAlg.
 
 (* ---- order on labels: NumPy sort / Python sorted on homogeneous label sets ----
    numbers by value, strings by code point, tuples lexicographically, dates by count; across classes an
@@ -142,3 +142,27 @@ Definition SIter (union : bool) (arrays : list (list val)) (obs : list val) : bo
       same_set obs (fold_left (fun acc y => S_set val val_eqb (if union then OpUnion else OpInter) acc y) t
                               (dedup val val_eqb x))
   end.
+
+(* ---- Index.equals(skipna=True) (index.py:1217-1258), the equal-operands shortcut of every alignment path:
+   same length and, position by position, equal labels or `isna_both`; the two operands of the mask
+   `isna_array(<x>.values, include_none=False) & isna_array(<y>.values, include_none=False)` are REGENERATED
+   from the source (Gen/Gen_c06.v) ---- *)
+Definition isna_label (v : val) : bool := match v with VNaN | VNaT => true | _ => false end.
+
+Definition mask_side_is_other (k : nat) : bool :=
+  String.eqb (nth k src_index_equals_mask_operands ""%string) "other"%string.
+
+Definition M_index_equals (a b : list val) : bool :=
+  (Z.of_nat (length a) =? Z.of_nat (length b)) &&
+  forallb (fun p => py_val_eq (fst p) (snd p) ||
+                    (isna_label (if mask_side_is_other 0 then snd p else fst p) &&
+                     isna_label (if mask_side_is_other 1 then snd p else fst p)))
+          (combine a b).
+
+(* specification: the same labels in the same order, a missing label matching a missing label *)
+Definition S_index_equals (a b : list val) : bool :=
+  (Z.of_nat (length a) =? Z.of_nat (length b)) &&
+  forallb (fun p => py_val_eq (fst p) (snd p) || (isna_label (fst p) && isna_label (snd p))) (combine a b).
+
+Definition MEQ (a b : list val) (obs : bool) : bool := Bool.eqb (M_index_equals a b) obs.
+Definition SEQ (a b : list val) (obs : bool) : bool := Bool.eqb (S_index_equals a b) obs.
